@@ -27,6 +27,16 @@ def log_pdf_to_affiliation(
     else:
         _ = np.broadcast_arrays(weight, log_pdf, source_activity_mask)
 
+    if source_activity_mask is not None:
+        assert source_activity_mask.dtype == bool, source_activity_mask.dtype  # noqa
+        # Inactive classes must not determine the scaling below. Otherwise,
+        # all active classes may underflow to zero.
+        log_pdf = np.where(
+            source_activity_mask,
+            log_pdf,
+            np.amin(log_pdf, axis=-2, keepdims=True),
+        )
+
     # The value of affiliation max may exceed float64 range.
     # Scaling (add in log domain) does not change the final affiliation.
     affiliation = log_pdf - np.amax(log_pdf, axis=-2, keepdims=True)
